@@ -80,6 +80,7 @@ import (
 	"os"
 	"path/filepath"
 	"regexp"
+	"slices"
 	"strings"
 
 	"honnef.co/go/tools/analysis/lint"
@@ -250,6 +251,12 @@ func (o *sarifFormatter) Format(checks []*lint.Analyzer, diagnostics []diagnosti
 			ExecutionSuccessful: true,
 		}},
 	}
+	// The checks come out of a map. Emit the rules in a stable order, so that
+	// identical runs produce identical output.
+	checks = slices.Clone(checks)
+	slices.SortFunc(checks, func(a, b *lint.Analyzer) int {
+		return strings.Compare(a.Analyzer.Name, b.Analyzer.Name)
+	})
 	for _, c := range checks {
 		doc := c.Doc.Compile()
 		run.Tool.Driver.Rules = append(run.Tool.Driver.Rules,
